@@ -109,16 +109,19 @@ impl Kinematics for OPWKinematics {
                         let mut now = ik[s_idx];
                         let now_q5 = now[J5] * self.parameters.sign_corrections[J5] as f64
                             - self.parameters.offsets[J5];
+                        // J4 and J6 counted in the model's sense of rotation (sign corrections)
+                        let g4 = self.parameters.sign_corrections[J4] as f64;
+                        let g6 = self.parameters.sign_corrections[J6] as f64;
                         if are_angles_close(now_q5, 0.) {
                             // J5 = 0 singlularity, J4 and J6 rotate same direction
-                            s = previous[J4] + previous[J6];
-                            s_n = now[J4] + now[J6];
+                            s = g4 * previous[J4] + g6 * previous[J6];
+                            s_n = g4 * now[J4] + g6 * now[J6];
                         } else {
                             // J5 = -180 or 180 singularity, even if the robot would need
                             // specific design to rotate J5 to this angle without self-colliding.
                             // J4 and J6 rotate in opposite directions
-                            s = previous[J4] - previous[J6];
-                            s_n = now[J4] - now[J6];
+                            s = g4 * previous[J4] - g6 * previous[J6];
+                            s_n = g4 * now[J4] - g6 * now[J6];
 
                             // Fix J5 sign to match the previous
                             normalize_near(&mut now[J5], previous[J5]);
@@ -133,8 +136,8 @@ impl Kinematics for OPWKinematics {
                         }
                         let j_d = angle / 2.0;
 
-                        now[J4] = previous[J4] + j_d;
-                        now[J6] = previous[J6] + j_d;
+                        now[J4] = previous[J4] + g4 * j_d;
+                        now[J6] = previous[J6] + g6 * j_d;
 
                         // Check last time if the pose is ok
                         let check_pose = self.forward(&now);
